@@ -33,7 +33,7 @@ def check(run):
     R.rule('C08.onlyclose', 'CLOSE opcode sent only by _send_close, called only by close(); every path of close() that '
                             'attempts the send enters the closing state', 4)
     R.rule('C08.refuse', 'write(): is_closed / is_closing tests raising WebSocketError dominate sendall; only write() '
-                         'writes to the session socket', 4)
+                         'writes to the session socket', 3)
     R.rule('C08.server', 'server-initiated close: Closing yielded before the echo; echo carries the message\'s code and '
                          'reason; no flag store before the event', 4)
     R.rule('C08.client', 'client-initiated close: Closed then closed=True; loop exits on is_closed; try-else closes the '
@@ -42,6 +42,18 @@ def check(run):
     R.rule('C08.keepreading', 'feed() stops only on is_closed, never on is_closing', 1)
     R.rule('C08.echobound', 'the Close payload guard is exactly 125 bytes (every legal Close can be sent/echoed)', 1)
     R.rule('C08.pongclosing', 'a Pong refused while closing is swallowed (no error Disconnected)', 2)
+    R.rule('C08.codes', 'every valid close code is accepted (reserved ones rejected): a valid server Close leads to '
+                        'Closing/Closed, not to a protocol error', 2)
+    R.rule('C08.route', 'a Close (or any control frame) between the fragments of a text message is not run through the '
+                        'text validator', 4)
+    R.rule('C08.echoswallow', 'write failures while echoing / sending the Close are absorbed (no error Disconnected)', 3)
+    from . import C04, C05, C09
+    with R.as_rule('C08.codes'):
+        C04.closecodes(R)
+    with R.as_rule('C08.route'):
+        C05.route(R)
+    with R.as_rule('C08.echoswallow'):
+        C09.swallow(R)
     writers(R)
     onlyclose(R)
     refuse(R)
@@ -170,42 +182,34 @@ def onlyclose(R, RID='C08.onlyclose'):
 
 
 def refuse(R, RID='C08.refuse'):
+    from .common import effective_write_sites
     q = S + '.write'
+    sites = effective_write_sites(R)
+    need(sites, 'no write to the session socket found')
+    for (g, n, c, via) in sites:
+        rd = ReachingDefs(g)
+        fq = g.ctx.func.qual
+        lits = set()
+        for l in path_conditions(R, g, rd, g.entry, n):
+            lits = set(l) if not lits else lits & set(l)
+        for atom, prop in (('self.websocket.state.closed', 'is_closed'), ('self.websocket.state.closing', 'is_closing')):
+            ok = (atom, False) in lits or ('self.websocket.%s' % prop, False) in lits
+            R.ob(RID, 'socket write only when not %s (%s)' % (prop, fq.rsplit('.', 1)[1]), ok,
+                 '%s() writes to the socket without `%s` having been tested false (via %s)' % (fq.rsplit('.', 1)[1], prop, ' <- '.join(via)),
+                 func=fq, node=c)
     g = R.cfg(q)
     rd = ReachingDefs(g)
-    sa = ext_calls(R, g, {'socket.sendall', 'socket.send'})
-    need(len(sa) == 1, 'write(): expected one sendall')
+    sa = [(n, c) for (g_, n, c, via) in sites if g_.ctx.func.qual == q]
+    need(len(sa) >= 1, 'write(): no socket write reached from write()')
     n, c = sa[0]
-    lits = set()
-    for l in path_conditions(R, g, rd, g.entry, n):
-        lits = set(l) if not lits else lits & set(l)
-    for atom, prop in (('self.websocket.state.closed', 'is_closed'), ('self.websocket.state.closing', 'is_closing')):
-        ok = (atom, False) in lits or ('self.websocket.%s' % prop, False) in lits
-        R.ob(RID, 'sendall only when not %s' % prop, ok,
-             'sendall() is reachable without `%s` having been tested false (conditions: %s)' % (prop, sorted(lits)),
-             func=q, node=c)
     for rn in [m for m in g.live_nodes() if m.kind == 'stmt' and isinstance(m.ast, ast.Raise)]:
         toks = R.exc.exc_tokens_of_value(rn.ast.exc, g.ctx)
         lits2 = {(t, p) for (t, p, _) in guards_of(g, rn)}
         if any(t in ('self.websocket.is_closed', 'self.websocket.is_closing') and p for (t, p) in lits2):
             R.ob(RID, 'refusal raises a WebSocketError', all('errors.WebSocketError' in R.exc.supers(t) for t in toks),
                  'refusal raises %s' % sorted(toks), func=q, node=rn.ast)
-    # only write() writes to the session socket
-    bad = []
-    for cx in R.types.ctxs.values():
-        if cx.func.qual == q or cx.func.cls is None or cx.func.cls.qual != S:
-            continue
-        gg = R.cfg(cx.func.qual, cx.recv) if cx.func.parent is None else None
-        if gg is None:
-            continue
-        for (m, c2) in ext_calls(R, gg, {'socket.sendall', 'socket.send'}):
-            if U(c2.func.value) == 'self._sock':
-                bad.append((cx.func, c2))
-    R.ob(RID, 'write() is the only writer of the session socket', not bad,
-         '%s writes to self._sock directly' % (bad[0][0].qual if bad else ''), func=(bad[0][0] if bad else q),
-         node=(bad[0][1] if bad else None), construct='direct socket writes')
     data = c.args[0] if c.args else None
-    R.ob(RID, 'write sends its argument', data is not None and is_param(rd, n, data), 'sendall(%s)' % U(data), func=q, node=c)
+    R.ob(RID, 'write sends its argument', data is not None and is_param(rd, n, data), '%s' % U(c), func=q, node=c)
 
 
 def server(R):
@@ -216,7 +220,12 @@ def server(R):
     mp = f.params[1]
     ycl = [y for y in g.yields() if 'inst:events.Closing' in R.types.expr(y.ast.value, g.ctx)]
     echo = calls_to(R, g, WS + '.close')
-    need(len(ycl) == 1 and len(echo) == 1, '_on_close: Closing yield / echo call not found')
+    need(len(ycl) == 1, '_on_close: Closing yield not found')
+    R.ob('C08.server', 'the server\'s Close is echoed through close()', len(echo) == 1,
+         '_on_close does not echo through self.close(...) (%d calls): the echo bypasses the state handling of close()' % len(echo),
+         func=f, node=ycl[0].ast, construct='echo call')
+    if len(echo) != 1:
+        return
     y, (en, ec) = ycl[0], echo[0]
     R.ob('C08.server', 'Closing is yielded before the echo', all_paths_pass(g, [g.entry], [y], [en], skip_edge=nx),
          'the Close is echoed before the application has seen Closing (it could no longer send during the event)',
@@ -309,6 +318,15 @@ def eof(R, RID='C08.eof'):
     okb = okb and bool(act) and all(any(b in g.reachable(succs(a, 'false'), skip_edge=nx) for b in brk) for a in act)
     R.ob(RID, 'EOF while closing/closed ends gracefully', okb, 'the empty-read arm does not break out of the loop when the '
          'websocket is not active', func=q, node=t.ast, construct='EOF inactive arm')
+    # and only then: every path from the empty read to a normal loop exit has seen `is_active` false
+    bad = []
+    for b in brk:
+        for l in path_conditions(R, g, rd, t, b):
+            if not any((a, False) in l for a in ('websocket.is_active', 'self.websocket.is_active')):
+                bad.append(sorted(x[0] for x in l if x[1])[:4])
+    R.ob(RID, 'EOF leads to the graceful exit only when no handshake side is still active', not bad,
+         'an empty read can leave the loop normally (graceful Disconnected) without `is_active` having been found false: %s'
+         % bad[:1], func=q, node=t.ast, construct='EOF graceful bypass')
 
 
 def keepreading(R):
